@@ -14,6 +14,7 @@ import (
 	"github.com/uber-go/tally/v4/m3/thriftudp"
 	"github.com/uber-go/tally/v4/thirdparty/github.com/apache/thrift/lib/go/thrift"
 	"verifsim/simnet"
+	"verifsim/simrt"
 )
 
 type m3State struct {
@@ -23,7 +24,20 @@ type m3State struct {
 	builtNs    int64
 	transports []thrift.TTransport // transport stack
 	multi      *thriftudp.TMultiUDPTransport
+	// plain flags for the "keep reporting until Close has returned" producers;
+	// tasks run one at a time, and the flags are not part of any oracle
+	closeInvoked  bool
+	closeReturned bool
 }
+
+// flag / is: harness bookkeeping shared by tasks that run one at a time; kept
+// out of the race detector's sight like the rest of the harness state.
+//
+//go:norace
+func (st *m3State) flag(p *bool, v bool) { *p = v }
+
+//go:norace
+func (st *m3State) is(p *bool) bool { return *p }
 
 var errSend = errors.New("simnet: injected send error")
 
@@ -184,11 +198,31 @@ func (te *taskEnv) execM3(op *Op, rec *OpRec) bool {
 	case "m3flush":
 		st.rep.Flush()
 	case "m3close":
+		st.flag(&st.closeInvoked, true)
 		err := st.rep.Close()
+		st.flag(&st.closeReturned, true)
 		if err != nil {
 			rec.Err = err.Error()
 		}
 		rec.Extra = len(env.Sim.LiveLibTasks())
+	case "m3spam":
+		// a producer that does not stop: once some task has called Close it keeps
+		// reporting until a Close call has returned. "Close returns" must not
+		// depend on the producers pausing; under the fair continuation of a run a
+		// Close that is starved by them shows up as a livelock.
+		x := h(op.M)
+		if x == nil || x.kind != "m3c" {
+			return true
+		}
+		for i := 0; i < 300 && !st.is(&st.closeInvoked); i++ {
+			simrt.Yield()
+		}
+		if !st.is(&st.closeInvoked) {
+			return true // nobody closes in this program
+		}
+		for !st.is(&st.closeReturned) {
+			x.obj.(tally.CachedCount).ReportCount(1)
+		}
 	default:
 		return false
 	}
